@@ -2,6 +2,7 @@
 from fractions import Fraction
 
 from .. import msgs
+from .. import envprobe
 from ..common import chunks, generic_replay, pool_map
 
 RULE = ('non-sysex messages: enumerated from the attribute ranges (quick: boundary grid + all 16384 pitches on 3 '
@@ -55,11 +56,17 @@ def _impl_case(case):
             else:
                 # every separator the API documents, with the time argument; and what bytes() returned belongs to the
                 # caller: changing it must not change what any message encodes to afterwards
-                for sep in (' ', '', ':', '-', ', '):
+                for sep in (' ', '', ':', '-', ', ', 'x', 'g', 'Z', '_', '.', 'q', 'h'):
                     m5 = mido.Message.from_hex(m.hex(sep), time=time, sep=sep) if sep else None
                     if m5 is not None and (m5 != m or m5.time != time):
                         fail = f'from_hex(hex({sep!r}), time={time!r}, sep={sep!r}) = {vars(m5)} differs from {vars(m)}'
                         break
+                if fail is None:
+                    # the frozen twin encodes to the same bytes (whatever was encoded before it in this process)
+                    from mido.frozen import freeze_message
+                    fz = freeze_message(m)
+                    if list(fz.bytes()) != ref or mido.Message.from_bytes(fz.bytes(), time=time) != m:
+                        fail = f'the frozen copy of {m!r} encodes to {list(fz.bytes())} instead of {ref}'
                 if fail is None:
                     bs.append(0x55)
                     bs[0] = 0
@@ -140,12 +147,15 @@ def run(ck):
     ck.compare('codec.encode', enc_req, [r[0] for r in res], model_enc)
     model_dec = ck.driver.run(dec_req)
     ck.compare('codec.decode', dec_req, [r[1] for r in res], model_dec)
+    envprobe.check(ck, ['codec'])
     return ck.finish(RULE, assumptions=[
         'time values are passed through by identity (checked by the oracle on int, negative, huge, float, Fraction, bool)',
         'separators other than the default are not modelled'])
 
 
 def oracle(case):
+    if 'environment' in case:
+        return envprobe.oracle(case)
     d = dict(case['attrs'])
     if 'data' in d:
         d['data'] = tuple(d['data'])
